@@ -138,21 +138,22 @@ class C09(Cfg):
     model_exe = "dmodel_sync"
     design_ref = "DESIGN.md §6 C09, App. A.5, A.6, A.7"
     technique = ("Lean 4 invariant proof over a literal model of the marks and of DailyLogsUpdate::compute (the row-by-row evaluation of its "
-                 "SELECT under the loop's own updates, fixed by 079e672, stays in the model behind a switch) + correspondence run of the compiled model against 1-2 real "
+                 "SELECT under the loop's own updates, fixed by 079e672, and the loop before the three repairs of #20 stay in the model behind switches) + correspondence run of the compiled model against 1-2 real "
                  "GraphDatabaseService instances (logical clock, writer batches forced with a gate statement, real pulls) + an "
                  "independent from-scratch recomputation of every log row by the harness with the real hash function")
-    level_text = ("Theorems (Lean 4; any number of rooms, entities, days, writes, batches and recomputation points): for the intended behaviour "
-                  "(Defects.none: every touched day marked, seed row loaded, entity compared, emptied days dropped, window fixed before the loop) "
+    level_text = ("Theorems (Lean 4; any number of rooms, entities, days, writes, batches and recomputation points), for the code as it is "
+                  "(Defects.asImplemented, which since the three repairs of candidate #20 — seed row loaded, entity compared, emptied day dropped — has every switch of "
+                  "DailyLogsUpdate::compute off) and for every Defects value with those switches off: "
                   "an invariant over (content, log, pending marks) is preserved by every write whose marks cover the days it touches, by the end-of-batch "
                   "mark write and by a recomputation at ANY point, and after a recomputation with nothing pending the log is exactly the specification "
-                  "(count, daily hash of the sorted signatures, history(d1)=daily(d1), history(dk+1)=H(history(dk)++daily(dk))) of the stored content; "
-                  "hence equal content => equal logs whatever the batching, and (hash = identity on what is fed) different per-day signature sets => different logs. "
-                  "Every concrete write of the model (local create/update/move/reference/deletion, synchronised rows, synchronised deletion records) covers its days under Defects.none. "
-                  "For the code as it is the statement is FALSE: decide-checked witnesses for the dropped history seed, the entity not compared and the emptied day keeping a row "
-                  "(all #20, history hashes only; Defects.beforeFixHistory); proved for the code as it is: every MARKED day gets the count and daily hash of its content, every write of the model marks the days it touches "
-                  "(also one deletion query with several reference-deletion entries, C09_model_unrefs), and the window of compute is modelled literally (C09_window_is_sql_window); "
-                  "the full statement is proved for every Defects value with the switches of compute off (C09_log_of_content_of ...), which the code becomes with findings/C09-1..3. "
-                  "Regression witnesses (fixed in /repo, switch off, corpus replay kept): the lazily evaluated SELECT (079e672), the old day of a synchronised cross-day update (8123d04), "
+                  "(one row per (room, entity, day) with content: count, daily hash of the sorted signatures, history(d1)=daily(d1), history(dk+1)=H(history(dk)++daily(dk)); no row for a day without content) "
+                  "of the stored content (C09_log_of_content_asImplemented); "
+                  "hence equal content => equal logs whatever the batching (C09_equal_content_equal_log_asImplemented), and (hash = identity on what is fed) different per-day signature multisets => different logs "
+                  "(C09_equal_log_equal_content_asImplemented, C09_logOf_injective). "
+                  "Every concrete write of the model of the code (local create/update/move/reference/deletion, one deletion query with several reference-deletion entries, synchronised rows, synchronised deletion records) covers its days (C09_model_marks_asImplemented, C09_model_unrefs). "
+                  "The window of compute is modelled literally: the rows walked are those the SQL text selects (C09_window_is_sql_window). "
+                  "Regression witnesses for the code before each repair (switch off now, corpus replay kept): the dropped history seed, the entity not compared, the emptied day keeping a row (all #20; Defects.beforeFixHistory), "
+                  "the lazily evaluated SELECT (079e672), the old day of a synchronised cross-day update (8123d04), "
                   "the synchronised deletion of another version (1a9cbe6), the reference deletion that re-dates its source row without marking (9b21e0a) or without removing anything (456214b). "
                   "The model is tied to /repo by running both on the same generated multi-day histories and comparing every table of every peer after every op.")
     level_note = ("Trusted: Lean kernel (+propext, Classical.choice, Quot.sound), the hand-written models lean/DiscretModel/Model/{DailyLog,Sync}.lean and the harness. "
